@@ -217,7 +217,7 @@ const (
 
 type universe struct {
 	blobs [][]byte // 0: config, 1: layer, 2: spare blob (never referenced), 3: slow blob
-	mans  [][]byte // 0: image (config 0, layer 1), 1: artifact with subject image 0 (config 2)
+	mans  [][]byte // 0: image (config 0, layer 1), 1: artifact with subject image 0 (config 2), 2: index artifact with the same subject
 }
 
 func digestOf(b []byte) string { return fmt.Sprintf("sha256:%x", sha256.Sum256(b)) }
@@ -242,6 +242,10 @@ func newUniverse(seed uint64) *universe {
 	art, _ := json.Marshal(map[string]any{"schemaVersion": 2, "mediaType": mtManifest, "artifactType": "application/vnd.example.sig",
 		"config": desc("application/vnd.oci.empty.v1+json", u.blobs[2]), "layers": []any{}, "subject": desc(mtManifest, img)})
 	u.mans = append(u.mans, art)
+	// an artifact may be an index as well as an image
+	iart, _ := json.Marshal(map[string]any{"schemaVersion": 2, "mediaType": mtIndex, "artifactType": "application/vnd.example.sbom",
+		"manifests": []any{}, "subject": desc(mtManifest, img)})
+	u.mans = append(u.mans, iart)
 	return u
 }
 
@@ -320,9 +324,9 @@ func makePlan(base uint64, tier string, idx int) *lPlan {
 		case 0, 1, 2:
 			own = append(own, lOp{K: "pushblob", Obj: r.intn(3)})
 		case 3, 4:
-			own = append(own, lOp{K: "pushman", Obj: r.intn(2)})
+			own = append(own, lOp{K: "pushman", Obj: r.pick(0, 0, 1, 1, 2)})
 		case 5:
-			own = append(own, lOp{K: "delman", Obj: r.intn(2)})
+			own = append(own, lOp{K: "delman", Obj: r.pick(0, 0, 1, 1, 2)})
 		case 6:
 			own = append(own, lOp{K: "delblob", Obj: r.intn(3)})
 		case 7:
@@ -330,7 +334,7 @@ func makePlan(base uint64, tier string, idx int) *lPlan {
 		case 8:
 			own = append(own, lOp{K: "getblob", Obj: r.intn(3)})
 		case 9:
-			own = append(own, lOp{K: "getman", Obj: r.intn(2)})
+			own = append(own, lOp{K: "getman", Obj: r.intn(3)})
 		case 10:
 			own = append(own, lOp{K: "tags"})
 		case 11:
@@ -638,15 +642,34 @@ func (w *world) ownerOp(op lOp) {
 	case "pushman":
 		data := w.u.mans[op.Obj]
 		d := digestOf(data)
-		tag := []string{"v1", "sig"}[op.Obj]
-		r := w.do(0, "PUT", base+"/manifests/"+tag, "", http.Header{"Content-Type": {mtManifest}}, io.NopCloser(bytes.NewReader(data)), int64(len(data)), op)
+		tag := []string{"v1", "sig", "sbom"}[op.Obj]
+		ct := mtManifest
+		if op.Obj == 2 {
+			ct = mtIndex
+		}
+		r := w.do(0, "PUT", base+"/manifests/"+tag, "", http.Header{"Content-Type": {ct}}, io.NopCloser(bytes.NewReader(data)), int64(len(data)), op)
+		// --api-referrer: the OCI-Subject header tells the client that the registry keeps the referrers of the subject itself
+		if !r.refused && r.code != 429 {
+			subj := r.h.Get("OCI-Subject")
+			switch {
+			case !w.set.referrer && subj != "":
+				w.viol("switch.referrer-off", "OCI-Subject sent", fmt.Sprintf("PUT of manifest %s answered %d with OCI-Subject %s although --api-referrer=false", tag, r.code, subj))
+			case w.set.referrer && r.code == 201 && op.Obj > 0 && subj != digestOf(w.u.mans[0]):
+				w.viol("switch.referrer-on", "OCI-Subject missing", fmt.Sprintf("PUT of artifact %s answered 201 with OCI-Subject %q, subject is %s", tag, subj, digestOf(w.u.mans[0])))
+			case op.Obj == 0 && subj != "":
+				w.viol("switch.referrer-on", "OCI-Subject on a manifest without subject", fmt.Sprintf("PUT of %s answered with OCI-Subject %s", tag, subj))
+			}
+		}
 		if w.refusal("manifest push", r, w.canPush()) {
 			return
 		}
 		// complete only if everything it names is there
 		need := [][]byte{w.u.blobs[0], w.u.blobs[1]}
-		if op.Obj == 1 {
+		switch op.Obj {
+		case 1:
 			need = [][]byte{w.u.blobs[2]}
+		case 2:
+			need = nil
 		}
 		complete, unsure := true, false
 		for _, b := range need {
@@ -710,7 +733,7 @@ func (w *world) ownerOp(op lOp) {
 	case "getman":
 		data := w.u.mans[op.Obj]
 		d := digestOf(data)
-		r := w.do(0, "GET", base+"/manifests/"+d, "", http.Header{"Accept": {mtManifest}}, nil, 0, op)
+		r := w.do(0, "GET", base+"/manifests/"+d, "", http.Header{"Accept": {mtManifest, mtIndex}}, nil, 0, op)
 		w.checkRead("manifest", d, r, w.mans)
 	case "tags":
 		r := w.do(0, "GET", base+"/tags/list", "", nil, nil, 0, op)
@@ -739,18 +762,18 @@ func (w *world) ownerOp(op lOp) {
 			} `json:"manifests"`
 		}
 		_ = json.Unmarshal(r.body, &doc)
-		art := digestOf(w.u.mans[1])
-		_, want := w.mans[art]
-		got := false
+		got := map[string]bool{}
 		for _, m := range doc.Manifests {
-			if m.Digest == art {
-				got = true
+			if m.Digest == digestOf(w.u.mans[1]) || m.Digest == digestOf(w.u.mans[2]) {
+				got[m.Digest] = true
 			} else {
 				w.viol("referrers.extra", "unknown entry", fmt.Sprintf("referrers list %s", m.Digest))
 			}
 		}
-		if want != got && !w.unsure[art] {
-			w.viol("referrers.set", fmt.Sprintf("want %v got %v", want, got), fmt.Sprintf("artifact present=%v, listed=%v", want, got))
+		for _, art := range []string{digestOf(w.u.mans[1]), digestOf(w.u.mans[2])} {
+			if _, want := w.mans[art]; want != got[art] && !w.unsure[art] {
+				w.viol("referrers.set", fmt.Sprintf("want %v got %v", want, got[art]), fmt.Sprintf("artifact %s present=%v, listed=%v", art, want, got[art]))
+			}
 		}
 		w.out.Probes["referrers-read"]++
 	case "gcprobe":
@@ -792,6 +815,7 @@ func (w *world) markCollectable() {
 	// the artifact follows its subject (documented default of --gc-referrer-subject)
 	if _, ok := w.mans[digestOf(w.u.mans[0])]; !ok {
 		w.unsure[digestOf(w.u.mans[1])] = true
+		w.unsure[digestOf(w.u.mans[2])] = true
 		w.unsure[digestOf(w.u.blobs[2])] = true
 	}
 }
@@ -849,7 +873,7 @@ func (w *world) readerOp(c int, op lOp) bool {
 	case "getblob":
 		r = w.do(c, "GET", base+"/blobs/"+digestOf(w.u.blobs[op.Obj]), "", nil, nil, 0, op)
 	case "getman":
-		r = w.do(c, "GET", base+"/manifests/"+digestOf(w.u.mans[op.Obj]), "", http.Header{"Accept": {mtManifest}}, nil, 0, op)
+		r = w.do(c, "GET", base+"/manifests/"+digestOf(w.u.mans[op.Obj]), "", http.Header{"Accept": {mtManifest, mtIndex}}, nil, 0, op)
 	case "tags":
 		r = w.do(c, "GET", base+"/tags/list", "", nil, nil, 0, op)
 	case "refs":
@@ -975,7 +999,7 @@ func (w *world) storageIntact(when string) {
 			listed[m.Digest] = true
 		}
 		for _, d := range sortedKeys(w.mans) {
-			if d == digestOf(w.u.mans[1]) {
+			if d == digestOf(w.u.mans[1]) || d == digestOf(w.u.mans[2]) {
 				continue // an artifact is listed by the referrers response of its subject
 			}
 			if !listed[d] && !w.unsure[d] {
@@ -1197,7 +1221,7 @@ func (w *world) session(sim *simrt.Sim, first bool) {
 			w.checkRead("blob (second process)", d, r, w.blobs)
 		}
 		for _, d := range sortedKeys(w.mans) {
-			r := w.do(0, "GET", "/v2/"+repoName+"/manifests/"+d, "", http.Header{"Accept": {mtManifest}}, nil, 0, lOp{})
+			r := w.do(0, "GET", "/v2/"+repoName+"/manifests/"+d, "", http.Header{"Accept": {mtManifest, mtIndex}}, nil, 0, lOp{})
 			w.checkRead("manifest (second process)", d, r, w.mans)
 		}
 		w.out.Probes["second-process-read"]++
